@@ -63,6 +63,73 @@ theorem setter_value_guard (env : Env) (orc : Nat → Val → Raw) (horc : ∀ k
     | some c => rw [checkArguments_some_tc env orc horc f _ _ hc c h]
   rw [runCall_pedantic env orc f [slf, v] [] body hmode (by simp) (by simp [hshk]), hca]
 
+/-- the fold over the declared parameters, positional part: while the parameters have neither default nor keyword, the i-th one
+    is checked against the i-th positional value (after the implicit self) - a bad one at ANY such position stops the fold -/
+theorem checkParams_positional_bad {env : Env} {orc} {f : Fn} {args : List Val} {kw : List (NameId × Val)}
+    (ctx : SoundCtx env f args kw) (hshk : f.shouldHaveKwargs = false) :
+    ∀ (ps : List Param) (idx k : Nat), (∀ p ∈ ps, p ∈ f.params) →
+      (∀ p ∈ ps.take k, p.dflt = none ∧ lookup kw p.name = none) →
+      (∃ i, i < k ∧ ∃ p v a, ps[i]? = some p ∧ args[idx + i]? = some v ∧ p.ann = some a ∧ conforms env a v = false) →
+      checkParams env orc f args kw ps idx ≠ none := by
+  intro ps
+  induction ps with
+  | nil => intro idx k _ _ ⟨i, _, p, v, a, hp, _⟩; simp at hp
+  | cons q ps ih =>
+    intro idx k hsub hpre ⟨i, hik, p, v, a, hp, hv, ha, hbad⟩
+    have hk : 0 < k := by omega
+    have hq := hpre q (by cases k with | zero => omega | succ k => simp)
+    unfold checkParams
+    cases hqa : q.ann with
+    | none => simp
+    | some a0 =>
+      simp only [hq.1, hshk, Bool.false_eq_true, ↓reduceIte, hq.2]
+      cases hw : args[idx]? with
+      | none => simp only; split <;> simp
+      | some w =>
+        simp only
+        intro hnone
+        rw [orElse_none] at hnone
+        cases i with
+        | zero =>
+          simp only [List.getElem?_cons_zero, Option.some.injEq] at hp
+          subst hp
+          simp only [Nat.add_zero] at hv
+          have hwv : w = v := by rw [hw] at hv; exact Option.some.inj hv
+          have haa : a0 = a := by rw [hqa] at ha; exact Option.some.inj ha
+          subst hwv; subst haa
+          exact checkVal_bad ctx (ctx.anns q (hsub q (by simp)) a0 hqa) (ctx.args w (List.mem_of_getElem? hw)) hbad hnone.1
+        | succ i' =>
+          refine ih (idx + 1) (k - 1) (fun p hp' => hsub p (by simp [hp'])) ?_ ⟨i', by omega, p, v, a, ?_, ?_, ha, hbad⟩ hnone.2
+          · intro p' hp'
+            apply hpre p'
+            cases k with
+            | zero => omega
+            | succ k => simp only [List.take_succ_cons, List.mem_cons]; right; simpa using hp'
+          · simpa using hp
+          · rw [← hv]; congr 1; omega
+
+/-- **C03 (positional calls).** Where a positional call is possible at all (`should_have_kwargs = False`: dunder methods like
+    `__call__` / `__getitem__`, property setters, functions taking `*args`; positional-only parameters can be filled in no other
+    way) a positional value that does not conform to the annotation of the declared parameter it binds to - at ANY position of
+    the positional prefix - never reaches the body. -/
+theorem positional_prefix_guard (env : Env) (orc : Nat → Val → Raw) (horc : ∀ k v, orc k v ≠ .raisedTV) (f : Fn) (args : List Val)
+    (kw : List (NameId × Val)) (body : BodyOut) (ctx : SoundCtx env f args kw) (hmode : f.mode = .pedantic)
+    (hshk : f.shouldHaveKwargs = false) (hinit : (f.firstIsSelf && args.isEmpty) = false) (hc : f.clazzFails args = false)
+    (k : Nat) (hpre : ∀ p ∈ f.plain.take k, p.dflt = none ∧ lookup kw p.name = none)
+    (i : Nat) (hi : i < k) (p : Param) (v : Val) (a : Ann) (hp : f.plain[i]? = some p)
+    (hv : args[(if f.firstIsSelf then 1 else 0) + i]? = some v) (ha : p.ann = some a) (hbad : conforms env a v = false) :
+    runCall env orc f args kw body = ⟨.pedTypeCheck, false, [], []⟩ := by
+  have hne : checkArguments env orc f args kw ≠ none := by
+    rw [checkArguments_eq]
+    intro h
+    rw [orElse_none] at h
+    exact checkParams_positional_bad ctx hshk f.plain _ k (plain_sub f) hpre ⟨i, hi, p, v, a, hp, hv, ha, hbad⟩ h.1
+  have hca : checkArguments env orc f args kw = some .pedTypeCheck := by
+    cases h : checkArguments env orc f args kw with
+    | none => exact absurd h hne
+    | some c => rw [checkArguments_some_tc env orc horc f _ _ hc c h]
+  rw [runCall_pedantic env orc f args kw body hmode hinit (by simp [hshk]), hca]
+
 /-- the value a parameter at position i receives is checked: special case "one bad keyword among conforming ones" -/
 theorem one_bad_keyword (env : Env) (orc : Nat → Val → Raw) (horc : ∀ k v, orc k v ≠ .raisedTV) (f : Fn) (args : List Val)
     (kw : List (NameId × Val)) (body : BodyOut) (ctx : SoundCtx env f args kw) (hmode : f.mode = .pedantic)
